@@ -131,6 +131,39 @@ def fixed_documents(ctx, sut, fpm):
                       attribute_f24=False)
 
 
+def keyword_orders(ctx, sut, fpm):
+    """One schema holding same-titled, different objects under several sibling keywords, the keywords written
+    in every rotation (and reversal) of their order: which class keeps the bare name must not depend on the
+    order in which the document happens to list its keywords, or J1 (written in the serializer's order)
+    numbers them differently when parsed again."""
+    def entry(idx):
+        return {"type": "object", "title": "Entry", "required": [f"f{idx}"], "properties": {f"f{idx}": {"type": "integer"}}}
+
+    members = [("properties", lambda i: {"a": entry(i)}), ("items", entry), ("patternProperties", lambda i: {"^x": entry(i)}),
+               ("propertyNames", entry), ("contains", entry), ("dependencies", lambda i: {"a": entry(i)}),
+               ("additionalProperties", entry), ("additionalItems", entry)]
+    orders = []
+    for shift in range(len(members)):
+        turned = members[shift:] + members[:shift]
+        orders += [turned, turned[::-1]]
+    for number, order in enumerate(orders):
+        if number % ctx.nshards != ctx.shard:
+            continue
+        schema = {}
+        for key, make in order:
+            schema[key] = make([name for name, _ in members].index(key))
+        if "additionalItems" in schema and isinstance(schema.get("items"), dict):
+            schema["items"] = [schema["items"]]
+        try:
+            elements = sut.parse_file(copy.deepcopy(schema), ctx.tmpdir(), f"c06k_{ctx.stream}_{number}.json")
+        except Exception as exc:  # pylint: disable=broad-except
+            ctx.witness("first_parse_failed", {"schema": schema}, f"{type(exc).__name__}: {exc!r}"[:300])
+            continue
+        ctx.count("keyword_orders")
+        roundtrip(ctx, sut, fpm, elements, {"schema": schema, "fixed_document": True}, f"korder_{number}",
+                  attribute_f24=False)
+
+
 def roundtrip(ctx, sut, fpm, elements, case, tag, attribute_f24=True):
     ctx.evaluation()
     try:
@@ -232,6 +265,7 @@ def run_shard(ctx):
     import random as _random  # pylint: disable=import-outside-toplevel
 
     fixed_documents(ctx, sut, fpm)
+    keyword_orders(ctx, sut, fpm)
     pending_sibling = None
     seeds = [ctx.gen_rng.getrandbits(48) for _ in range(ctx.params["schemas"])]
     for idx, case_seed in ctx.ordered(seeds):
